@@ -195,6 +195,7 @@ def run_property(prop, tier, seed, plan):
             if r is not None and (r.invariants_violated or r.temporal_violated):
                 # a design-level counterexample: only a real trace can turn it into a verdict (DESIGN 2.2)
                 stats.setdefault("model_counterexamples", []).append({"cfg": name, "invariants": r.invariants_violated})
+                print("MODEL-COUNTEREXAMPLE spec=IceSession cfg=%s invariants=%s (design level: not a verdict; see evidence)" % (name, r.invariants_violated))
     stats.pop("_shapes", None)     # tuple keys: bookkeeping only
     verdict.coverage.update(stats)
     verdict.coverage["predicates"] = sorted({p for r in plan["runs"] for p in r["preds"]})
